@@ -100,16 +100,21 @@ def rollback_threshold_rule(F, R, rid):
     pred_ok = None
     if retains and not coupled:
         pred_ok = False
-        for _, e in lib.family_events(F, rb, "binop"):
-            if e[2] != "usize":
-                continue
-            lhs_cap = ".0" in e[5] or "_1." in e[5]   # captured checkpoint on the left?
-            rhs_cap = ".0" in e[6] or "_1." in e[6]
-            if (e[1] == "Lt" and rhs_cap and not lhs_cap) or (e[1] == "Gt" and lhs_cap and not rhs_cap):
-                pred_ok = True     # keep when slot < index
-            if e[1] in ("Le", "Ge", "Eq", "Ne"):
-                pred_ok = False
-                break
+        closures = [F.fns[e[1]] for _, _, e in rb.events("closure") if e[1] in F.fns]
+        for c in closures:
+            for _, _, e in c.events("binop"):
+                if e[2] != "usize":
+                    continue
+
+                def is_capture(op):
+                    return any(re.search(r"_1\)?\.0|\(\*_1\)", s_) for s_ in lib.alias_sources(c, op)) if op.startswith("_") else False
+
+                lhs_cap, rhs_cap = is_capture(e[5]), is_capture(e[6])
+                if (e[1] == "Lt" and rhs_cap and not lhs_cap) or (e[1] == "Gt" and lhs_cap and not rhs_cap):
+                    pred_ok = True     # keep when slot < index
+                elif e[1] in ("Le", "Ge", "Eq", "Ne", "Lt", "Gt"):
+                    pred_ok = False
+                    break
     R.inst(rid, "SymbolMap::roll_back / name table cut at the same point as the value table", coupled or bool(pred_ok),
            "SymbolMap::roll_back does not remove the names of exactly the drained slots: it neither feeds map.remove from "
            "values.drain(index..) nor keeps map entries with `slot < index`; a name registered by the failed program at the "
